@@ -267,7 +267,14 @@ pub struct Node {
 }
 
 pub async fn start_node(name: &'static str, cookie: &str, events: &L) -> Node {
-    let ns = NodeServer::new(0, cookie.to_string(), name.to_string(), "host".to_string(), None, Some(NodeConnectionMode::Isolated));
+    start_node_limited(name, cookie, events, None).await
+}
+
+pub async fn start_node_limited(name: &'static str, cookie: &str, events: &L, frame_limit: Option<u64>) -> Node {
+    let mut ns = NodeServer::new(0, cookie.to_string(), name.to_string(), "host".to_string(), None, Some(NodeConnectionMode::Isolated));
+    if let Some(l) = frame_limit {
+        ns = ns.with_max_inbound_frame_size(l);
+    }
     let (server, handle) = Actor::spawn(None, ns, ()).await.expect("node server");
     let _ = server.cast(NodeServerMessage::SubscribeToEvents { id: "harness".into(), subscription: Box::new(Events { node: name, log: events.clone() }) });
     Node { server, handle, name }
@@ -1042,6 +1049,77 @@ fn c20_body(read_limit: usize, ending: Ending, abandon: bool) -> vsched::Body {
         let _ = ph.await;
         Outcome { key, violations: bad }
     })
+}
+
+/// C19: a node configured with a small inbound frame limit receives, at every stage of a session, a frame
+/// header declaring more than the limit (and nothing else). The session must close without waiting for a
+/// payload; a header within the limit keeps it waiting for the payload.
+fn c19_limit_body(is_server: bool, stage: usize, declared: u64, limit: u64) -> vsched::Body {
+    with_rt(move || async move {
+        let events: L = Arc::new(Mutex::new(vec![]));
+        let node = start_node_limited("a", COOKIE, &events, Some(limit)).await;
+        vsched::quiesce();
+        let (node_end, mine) = pipe("pipe-0", 0);
+        let _ = node.server.cast(NodeServerMessage::ConnectionOpenedExternal { stream: Box::new(node_end), is_server });
+        let mut peer = ScriptedPeer::new(mine.stream);
+        vsched::quiesce();
+        let mut kids = node.server.get_children();
+        kids.sort_by_key(|c| c.get_id());
+        let session = kids.last().cloned();
+        let mut bad = Vec::new();
+        vsched::explore_schedules(true);
+        // stage 0: first thing on the wire; stage 1: after the first honest handshake frame
+        if stage >= 1 {
+            if is_server {
+                let _ = peer.send(&auth_msg(pa::authentication_message::Msg::Name(pa::NameMessage { name: "peer@host".into(), flags: Some(pa::NodeFlags { version: 1 }), connection_string: "peer:1".into(), connection_id: 5 }))).await;
+            } else {
+                let _ = peer.send(&auth_msg(pa::authentication_message::Msg::ServerStatus(pa::ServerStatus { status: 0 }))).await;
+            }
+            vsched::quiesce();
+            while peer.recv().await.is_some() {}
+            vsched::quiesce();
+        }
+        let alive_before = session.as_ref().map(|s| s.get_status() == ActorStatus::Running).unwrap_or(false);
+        let _ = peer.send_raw(&declared.to_be_bytes()).await;
+        vsched::quiesce_time();
+        let status = session.as_ref().map(|s| s.get_status());
+        if !alive_before {
+            bad.push("the session was not running before the oversized header was sent".to_string());
+        } else if declared > limit {
+            if status != Some(ActorStatus::Stopped) {
+                bad.push(format!("a frame header declaring {declared} bytes (limit {limit}) left the session {status:?}: it must be rejected before any payload is read"));
+            }
+        } else if status != Some(ActorStatus::Running) {
+            bad.push(format!("a frame header declaring {declared} bytes (limit {limit}, so legal) left the session {status:?} although no payload byte was sent yet"));
+        }
+        if node.server.get_status() != ActorStatus::Running {
+            bad.push("the node server itself went down".into());
+        }
+        let key = format!("{status:?}");
+        peer.close().await;
+        vsched::quiesce();
+        node.server.stop(None);
+        let _ = node.handle.await;
+        Outcome { key, violations: bad }
+    })
+}
+
+pub fn c19_limit_units(thorough: bool) -> Vec<Unit> {
+    let cfg = cluster_cfg();
+    let mut v = Vec::new();
+    let limit = 64u64;
+    let mut sizes = vec![limit, limit + 1, 1 << 20, 16 * 1024 * 1024, 16 * 1024 * 1024 + 1];
+    if thorough {
+        sizes.extend([1, limit - 1, 2 * limit, 65_536, u32::MAX as u64, u64::MAX]);
+    }
+    for is_server in [true, false] {
+        for stage in [0usize, 1] {
+            for d in &sizes {
+                v.push(Unit::explore(Job::new(format!("node-limit/{}/stage{stage}/declared{d}", if is_server { "accepting" } else { "dialling" }), cfg.clone(), Some(if thorough { 2 } else { 1 }), c19_limit_body(is_server, stage, *d, limit))));
+            }
+        }
+    }
+    v
 }
 
 /// A call times out at the caller while the request is still under way / the real actor still thinks
